@@ -529,6 +529,8 @@ func runC06(c *Check) {
 		}
 		c.MinInstances("C06-R9", 2)
 	}
+	ruleWholePendingListOffered(c, p, "C06-R10")
+	ruleVerifierBoundBeforeValidation(c, p, "C06-R11")
 	c.MinInstances("C06-R5", 4)
 
 	// loops return only on ctx.Done
@@ -1167,6 +1169,7 @@ func runC08(c *Check) {
 	ruleTimersRearmed(c, p, "C08-R4")
 	c.Doc("C08-R3", "EO: a submission loop passes over a tick without reading its pending list only if its own tracker reports empty (otherwise pending items never leave the count and the limit is never released).")
 	ruleLoopSkipsOnlyWhenOwnTrackerEmpty(c, p, "C08-R3")
+	ruleWholePendingListOffered(c, p, "C08-R6")
 	ruleSubmissionBounded(c, p, "C08-R5")
 }
 
@@ -1486,6 +1489,8 @@ func runC07(c *Check) {
 	ruleCachesSavedAfterJoin(c, p, "C07-R8")
 	ruleMarksOnlyForAdmittedItems(c, p, "C07-R9")
 	ruleCacheSaverWritesWhatChanged(c, p, "C07-R10")
+	ruleWakeChannelBuffered(c, p, "C07-R11", "DAIncluderLoop")
+	c.MinInstances("C07-R11", 1)
 }
 
 // ruleCacheSaverWritesWhatChanged (C07-R10): the DA-inclusion marks live in memory and reach the
@@ -2114,4 +2119,88 @@ func boundMethodRows(fn *ssa.Function, suffix string) []methodRow {
 		}
 	}
 	return out
+}
+
+// ruleWholePendingListOffered (C06-R10 / C08-R6): the pending limit counts the tracker's whole
+// range (store height − last submitted), and only the submitter's acceptance callback moves the
+// range's lower end. The header list handed to the submitter is therefore the tracker's list
+// itself: a list filtered on the way (headers "already known to be on the DA layer" left out)
+// leaves the filtered heights counted as pending with nobody to submit them — with as many of them
+// as the limit allows, block production is refused for good although the DA layer accepts
+// everything.
+func ruleWholePendingListOffered(c *Check, p *Prog, rule string) {
+	c.Doc(rule, "VP: the list of headers handed to the generic submitter is the value the pending tracker's getPending returns, on every alternative (looked through the package's wrappers): nothing that is counted as pending is left out of the submission (a height filtered out is never submitted and never leaves the count the pending limit reads).")
+	subs := submitterInstances(p)
+	root := p.MustFunc(mgrM("HeaderSubmissionLoop"))
+	g := BuildECFG(p, root, ExpandOpts{MaxDepth: 5})
+	c.NoteGraph(g)
+	n := 0
+	for _, nd := range g.Nodes {
+		if nd.Kind != NInstr || !g.Live()[nd] {
+			continue
+		}
+		cc := CallCommonOf(nd)
+		if cc == nil || cc.StaticCallee() == nil {
+			continue
+		}
+		isSub := false
+		for _, sub := range subs {
+			if cc.StaticCallee() == sub || (cc.StaticCallee().Origin() != nil && cc.StaticCallee().Origin() == sub.Origin()) {
+				isSub = true
+			}
+		}
+		if !isSub {
+			continue
+		}
+		for i, a := range cc.Args {
+			sl, isSl := a.Type().Underlying().(*types.Slice)
+			if !isSl {
+				continue
+			}
+			if _, isBytes := sl.Elem().Underlying().(*types.Basic); isBytes {
+				continue
+			}
+			n++
+			t := ArgTerm(nd, i)
+			bad := ""
+			isTracker := func(u *Term) bool {
+				return u.Op == "extract" && u.Name == "0" && len(u.Args) == 1 && strings.Contains(genericName(u.Args[0].Name), "pendingBase[_]).getPending")
+			}
+			var walk func(x *Term, d int)
+			walk = func(x *Term, d int) {
+				u := x.unconv()
+				for u.Op == "slice" && len(u.Args) > 0 {
+					u = u.Args[0].unconv() // an upper cut keeps the list a prefix (C06-R9 looks at lower cuts)
+				}
+				switch {
+				case isTracker(u) || (u.Op == "const" && u.Name == "nil") || (u.Op == "phi" && len(u.Args) == 0):
+				case u.Op == "phi":
+					for _, a := range u.Args {
+						walk(a, d)
+					}
+				default:
+					if d > 0 {
+						if rs := p.ReturnTerms(u); len(rs) > 0 {
+							for _, r := range rs {
+								walk(r, d-1)
+							}
+							return
+						}
+					}
+					bad = trunc(u.String(), 100)
+				}
+			}
+			walk(t, 4)
+			inst := "HeaderSubmissionLoop ⟂ the tracker's whole list is offered"
+			if bad == "" {
+				c.OK(rule, inst, fnName(nd.Ctx.Fn), p.InstrPos(nd.In), "the submitted list is the pending tracker's list: "+trunc(t.String(), 80), true)
+			} else {
+				c.Bad(rule, inst, fnName(nd.Ctx.Fn), p.InstrPos(nd.In), "the list of headers handed to the submitter can be something other than the pending tracker's list ("+bad+"): heights left out stay counted as pending (the limit reads the tracker's range) but are never submitted, so with enough of them block production is refused for good", nil)
+			}
+		}
+	}
+	if n == 0 {
+		c.Unk(rule, "HeaderSubmissionLoop ⟂ submitter call", fnName(root), "", "anchor lost: no call of the generic submitter reachable from the header submission loop")
+	}
+	c.MinInstances(rule, 1)
 }
